@@ -86,8 +86,18 @@ MemClauses(e) ==
 TMem0First   == ~IsEv("MemUpd") /\ Mem0First /\ Silent /\ Note({})
 TMem0Restart == IsEv("MemUpd") /\ Mem0Restart(Ev.ids # Ev.before, Ev.ids) /\ Consume
                 /\ Note(MemClauses(Ev) \ {"C10_BeforeIsMem"})
-TGuardEnter == IsEv("LSBegin") /\ GuardEnter /\ Silent /\ Note({})
+TGuardEnter == (IsEv("LSBegin") \/ IsEv("Cauchy") \/ IsEv("Subspace")) /\ GuardEnter /\ Silent /\ Note({})
 TGuardExit  == IsEv("Return") /\ GuardExit /\ Silent /\ Note({})
+\* kernel calls of an iteration (main.py:505-533), logged with facts computed from the real arrays and an
+\* independent dense model: structure is decided here, the exact numerics on the lattice (MCKernels)
+TCauchy == IsEv("Cauchy") /\ pc = "Dir" /\ UNCHANGED vars /\ Consume
+           /\ Note(Flag("C08_Feasible", Ev.feasible) \cup Flag("C08_RestingVariablesUnmoved", Ev.t0Unmoved)
+                   \cup Flag("C08_ModelNonIncrease", Ev.modelNonInc) \cup Flag("C08_FirstLocalMinimiser", Ev.matchesRef)
+                   \cup Flag("C08_AuxiliaryVector", Ev.cOk))
+TSubspace == IsEv("Subspace") /\ pc = "Dir" /\ UNCHANGED vars /\ Consume
+             /\ Note(Flag("C09_ActiveFixed", Ev.activeFixed) \cup Flag("C09_Feasible", Ev.feasibleTol)
+                     \cup Flag("C09_ModelNonIncrease", Ev.modelNonInc) \cup Flag("C09_Descent", Ev.descent)
+                     \cup Flag("C09_TruncatedNewtonPoint", Ev.matchesRef))
 TLSBegin == IsEv("LSBegin") /\ LSBegin(Ev.pt, Ev.budget) /\ Consume
             /\ Note(Flag("C03_LSStartsAtIterate", Ev.pt = x)
                     \cup Flag("C09_Descent", Ev.descent)
@@ -146,7 +156,7 @@ TCrashLS == /\ IsEv("LSEnd") /\ Ev.ret = "exc" /\ fault = "none"
 
 Main == \/ TCrash \/ TCrashLS \/ TStart \/ TRestart \/ TRaise \/ TRaiseLS \/ TEvalF0 \/ TCallStop \/ TLateCallStop \/ TSkipStop \/ TEarly
         \/ TNoEarly \/ TStencil \/ TEvalG0 \/ TScaler \/ TNoScaler \/ TUpd0 \/ TNoUpd0
-        \/ TMem0First \/ TMem0Restart \/ TGuardEnter \/ TGuardExit \/ TLSBegin \/ TTrialF \/ TTrialG
+        \/ TMem0First \/ TMem0Restart \/ TGuardEnter \/ TGuardExit \/ TCauchy \/ TSubspace \/ TLSBegin \/ TTrialF \/ TTrialG
         \/ TLSNone \/ TLSStep \/ TAccFEval \/ TAccFHit \/ TAccFSkip \/ TAccGEval \/ TAccGHit
         \/ TAccGSkip \/ TUpd \/ TStopTarget \/ TStopFtol \/ TNoStop \/ TFilter \/ TNoFilter \/ TMemUpdate
         \/ TCallback \/ TNoCallback \/ TEndIter \/ TReturn \/ TPropagate
